@@ -422,7 +422,33 @@ def r19_4(ctx):
                         if hit and tm:
                             okm = True
         r.ob("hops:too-many-hops-at-limit", okm, f.site, "TooManyHops is reported when the hop index reaches max_hops")
-    ctx.run_rule("R19.4", "hop loop bound and loop predicate", body, floor=5)
+        # every analysis that walks the chain decides it from the example alone: whether there is a redirect to follow
+        # is the walker's business (it looks at the final status of each hop, request-time or backend), so the call
+        # is not conditioned on a status the caller computed for the first hop
+        for name, key in ANALYSES.items():
+            g = F.fn(key)
+            stat = set()
+            n_calls = 0
+            for b in g.all_bodies():
+                pvb = None
+                for cb, t, cal in b.calls():
+                    if cal is None or cal.key() not in ("api::redirection_loop::RedirectionLoop::from_example", "api::redirection_loop::RedirectionLoop::compute"):
+                        continue
+                    n_calls += 1
+                    pvb = pvb or Prov(b, copies=True)
+                    # the tests that control the call: switches from which one outcome reaches it and another cannot
+                    for tb in b.normal_blocks():
+                        tt = b.blocks[tb]["term"]
+                        if tt["k"] != "switch":
+                            continue
+                        reach = [(sx == cb or b.can_reach(sx, cb)) for sx in b.succ(tb)]
+                        if any(reach) and not all(reach):
+                            d_ = pvb.operand(tt["d"])
+                            if mentions(d_, lambda y: y[0] == "call" and y[1] in STATUS_CALLS):
+                                stat.add(show(d_, b)[:80])
+            if n_calls:
+                r.ob("hops:%s:walk-not-conditioned-on-a-status" % name, not stat, g.site, "the chain walk starts whatever status the first hop has" if not stat else "the chain walk is skipped depending on %s" % sorted(stat))
+    ctx.run_rule("R19.4", "hop loop bound and loop predicate", body, floor=6)
 
 
 def r19_5(ctx):
